@@ -475,6 +475,30 @@ unsafe fn h_waitpid(pid: c_int, status: *mut c_int, flags: c_int) -> Option<c_in
     crate::raw::set_errno(en);
     Some(r)
 }
+/// descriptors (and requested events) of the poll() the library is blocked in: count, then (fd << 16 | events)
+pub static BLOCKED_POLL: [std::sync::atomic::AtomicI64; 5] = [
+    std::sync::atomic::AtomicI64::new(0),
+    std::sync::atomic::AtomicI64::new(0),
+    std::sync::atomic::AtomicI64::new(0),
+    std::sync::atomic::AtomicI64::new(0),
+    std::sync::atomic::AtomicI64::new(0),
+];
+unsafe fn h_poll(fds: *mut libc::pollfd, n: libc::nfds_t, timeout: c_int) -> Option<c_int> {
+    if !RECORDING {
+        return None;
+    }
+    let k = (n as usize).min(4);
+    for i in 0..k {
+        let p = &*fds.add(i);
+        BLOCKED_POLL[i + 1].store(((p.fd as i64) << 16) | (p.events as i64 & 0xffff), Ordering::SeqCst);
+    }
+    BLOCKED_POLL[0].store(k as i64, Ordering::SeqCst);
+    let r = crate::raw::poll(fds, n, timeout);
+    let en = errno_of(r as i64);
+    BLOCKED_POLL[0].store(0, Ordering::SeqCst);
+    crate::raw::set_errno(en);
+    Some(r)
+}
 unsafe fn h_kill(pid: c_int, sig: c_int) -> Option<c_int> {
     if !RECORDING {
         return None;
@@ -505,6 +529,7 @@ pub fn install() {
     t.exit = Some(h_exit);
     t.waitpid = Some(h_waitpid);
     t.kill = Some(h_kill);
+    t.poll = Some(h_poll);
     crate::hooks::install(t);
 }
 
